@@ -18,7 +18,7 @@ func init() {
 	Registry["C18"] = checkC18
 	Descriptions["C07"] = "C07-recover (every goroutine gldap starts that can run a handler or the decode slice registers, before any such call and exactly under !disablePanicRecovery, a deferred function that calls recover() directly), " +
 		"C07-accept (a failing Accept that is not the shutting-down case has a path back to the accept loop), C07-noexit (no os.Exit / log.Fatal / runtime.Goexit / undischarged explicit panic reachable from connection or request goroutines), " +
-		"C07-contained (connection/request goroutines never cancel the server context or close the listener), C07-lockbalance (every Unlock/RUnlock, explicit or deferred, finds its mutex locked on every path: unlocking an unlocked mutex is a fatal error no recover() contains). Decides fencing and survival of the accept loop; does not decide that bystanders receive correct answers."
+		"C07-contained (connection/request goroutines never cancel the server context or close the listener), C07-nolock-io (no Server.mu / Mux.mu can be held at a call that reaches blocking socket I/O), C07-lockbalance (every Unlock/RUnlock, explicit or deferred, finds its mutex locked on every path: unlocking an unlocked mutex is a fatal error no recover() contains). Decides fencing and survival of the accept loop; does not decide that bystanders receive correct answers."
 	Descriptions["C11"] = "Necessary structural condition for bounded Stop: C11-sites (blocking socket I/O sites on connection/request goroutines enumerated), " +
 		"C11-lockrelease (every Lock/RLock in gldap is released on every path to the function's exit), C11-accounting (every connWg.Add is matched by a Done on every path, rules C12-done-last / C12-add-vs-wait), C11-waker-lifetime (a watcher goroutine that can be told to stop is told so only after (*conn).close has waited for the handlers), C11-waker (some code that runs asynchronously to those goroutines closes or deadlines every connection's socket once shutdownCtx is cancelled, and it is started for every accepted connection before its first read), C11-waker-first (no call that reaches ber.ReadPacket, a bufio.Writer write/flush, a net.Conn/tls.Conn read/write or a TLS handshake lies on a path of the connection goroutine before the watcher start), " +
 		"C11-stop-order (listener.Close and cancel precede connWg.Wait), C11-run-nil (shutdown exits of Run return nil), C11-nolock (connection goroutines never take Server.mu, which Stop holds across Wait). The time bound itself is not decided."
@@ -1256,6 +1256,46 @@ func checkC07(c *Ctx) {
 	}
 	R.Trivial("C07-contained", "connection/request slice has no server-level effect", c.P.Pos(m.connFn.Pos()), "only connWg.Done, logging and onCloseHandler touch the Server")
 
+	// ---- C07-nolock-io: no lock that all connections share (Server.mu, Mux.mu) can be held while gldap does blocking
+	// socket I/O on one connection: a client that stops reading would otherwise stall, through that lock, the requests
+	// of every other connection ("a client that stops reading affects only that connection")
+	{
+		nIO := 0
+		for _, f := range c.shippedFuncs(G) {
+			var may map[ssa.Instruction]an.LockSet
+			for _, ci := range an.Calls(f) {
+				if isGo(ci) {
+					continue
+				}
+				if _, isDefer := ci.(*ssa.Defer); isDefer {
+					continue
+				}
+				site := c.blockingSocketIO(ci, map[*ssa.Function]bool{})
+				if site == "" {
+					continue
+				}
+				if may == nil {
+					may = an.MayLockSets(f, nil)
+				}
+				nIO++
+				bad := ""
+				for k := range may[ci] {
+					if o := lockOwnerType(f, k); o == "Server" || o == "Mux" {
+						bad = o + "." + strings.TrimSuffix(k[strings.LastIndex(k, ".")+1:], "(r)")
+					}
+				}
+				key := fname(f) + ": " + site + " without a server-wide lock"
+				if bad == "" {
+					R.OK("C07-nolock-io", key, c.pos(ci), "no mutex shared by all connections can be held at this blocking I/O")
+				} else {
+					R.Fail("C07-nolock-io", key, c.pos(ci), bad+" can be held while this call blocks on one client's socket: a client that stops reading stalls every connection that needs the lock")
+				}
+			}
+		}
+		R.Count("C07-nolock-io/sites", nIO)
+		R.Floor("C07-nolock-io", 2)
+	}
+
 	// ---- C07-lockbalance: unlocking a mutex that is not locked is a runtime FATAL error ("sync: unlock of
 	// unlocked mutex"), which no recover() can contain: it ends the whole process. Every Unlock/RUnlock in the
 	// shipped packages must find its mutex held on every path, including deferred unlocks at function exit.
@@ -1707,12 +1747,53 @@ func checkC11(c *Ctx) {
 	// ---- C11-waker-lifetime: a goroutine waker that can also be told to stop (select with another channel)
 	// must stay armed until the connection's handlers have ended, i.e. until (*conn).close has returned in the
 	// teardown: a handler blocked in a write after the read loop ended still has to be interrupted by Stop.
+	// cancelLate: every call of the cancel function of the context made by wc happens only after (*conn).close
+	cancelLate := func(wc *ssa.Call, key string) int {
+		n := 0
+		for _, f := range shipped {
+			for _, ci := range an.Calls(f) {
+				cc := ci.Common()
+				if cc.IsInvoke() || cc.StaticCallee() != nil {
+					continue
+				}
+				cex, ok := an.StripX(cc.Value).(*ssa.Extract)
+				if !ok || cex.Tuple != ssa.Value(wc) || cex.Index != 1 {
+					continue
+				}
+				n++
+				okLate := false
+				switch x := ci.(type) {
+				case *ssa.Call:
+					okLate = f == m.teardown && an.InstrDominates(m.closeCall, x)
+				case *ssa.Defer:
+					// defers run last-in first-out: registered before the teardown's defer = runs after it
+					okLate = f == m.connFn && m.tdDefer != nil && an.InstrDominates(x, m.tdDefer)
+				}
+				R.Check(okLate, "C11-waker-lifetime", key, c.pos(ci), "the watcher's context is cancelled only after (*conn).close, which waits for the handlers, has returned",
+					"the shutdown watcher's context is cancelled before (*conn).close has waited for the connection's handlers (deferred calls run last-in first-out): if the read loop ends (Unbind, EOF) while a handler is blocked writing to a client that does not read, a later Stop() no longer arms the write deadline and never returns")
+			}
+		}
+		return n
+	}
 	seenWaker := map[*ssa.Function]bool{}
 	for _, w := range used {
 		if _, isGo := w.start.(*ssa.Go); !isGo || seenWaker[w.fn] {
 			continue
 		}
 		seenWaker[w.fn] = true
+		// the watcher waits on one context derived from shutdownCtx (fires on shutdown and on its own cancel)
+		an.Instrs(w.fn, func(in ssa.Instruction) {
+			u, ok := in.(*ssa.UnOp)
+			if !ok || u.Op != token.ARROW {
+				return
+			}
+			if wc := c.derivedShutdownDone(u.X); wc != nil {
+				key := fname(w.fn) + ": stays armed until the handlers have ended (derived context " + an.Path(an.Strip(u.X)) + ")"
+				if cancelLate(wc, key) == 0 {
+					R.OK("C11-waker-lifetime", key, c.pos(u), "the derived context's cancel function is never called: the watcher lives until shutdown")
+				}
+			}
+		})
 		an.Instrs(w.fn, func(in ssa.Instruction) {
 			sel, ok := in.(*ssa.Select)
 			if !ok {
@@ -1755,28 +1836,7 @@ func checkC11(c *Ctx) {
 				if dc, ok := ch.(*ssa.Call); ok && dc.Common().IsInvoke() && dc.Common().Method.Name() == "Done" {
 					if ex, ok := an.StripX(dc.Common().Value).(*ssa.Extract); ok && ex.Index == 0 {
 						if wc, ok := ex.Tuple.(*ssa.Call); ok && an.CalleeIs(wc.Common(), "context", "WithCancel") {
-							for _, f := range shipped {
-								for _, ci := range an.Calls(f) {
-									cc := ci.Common()
-									if cc.IsInvoke() || cc.StaticCallee() != nil {
-										continue
-									}
-									cex, ok := an.StripX(cc.Value).(*ssa.Extract)
-									if !ok || cex.Tuple != ssa.Value(wc) || cex.Index != 1 {
-										continue
-									}
-									n++
-									okLate := false
-									switch x := ci.(type) {
-									case *ssa.Call:
-										okLate = f == m.teardown && an.InstrDominates(m.closeCall, x)
-									case *ssa.Defer:
-										okLate = f == m.connFn && m.tdDefer != nil && an.InstrDominates(x, m.tdDefer)
-									}
-									R.Check(okLate, "C11-waker-lifetime", key, c.pos(ci), "the watcher's context is cancelled only after (*conn).close, which waits for the handlers, has returned",
-										"the shutdown watcher's context is cancelled before (*conn).close has waited for the connection's handlers: a later Stop() no longer arms the write deadline for a handler blocked in a write")
-								}
-							}
+							n += cancelLate(wc, key)
 						}
 					}
 				}
@@ -1790,7 +1850,7 @@ func checkC11(c *Ctx) {
 	// ---- C11-accounting: Stop() ends in connWg.Wait(): it returns only if every connWg.Add is matched by a
 	// Done on every path (rules of C12, imported)
 	{
-		tmp := &Ctx{P: c.P, R: report.New("tmp"), Tier: c.Tier}
+		tmp := &Ctx{P: c.P, R: report.New("tmp"), Tier: c.Tier, Sub: true}
 		checkC12(tmp)
 		n := 0
 		for _, o := range tmp.R.Obls {
@@ -1974,6 +2034,28 @@ func (c *Ctx) isShutdownCtx(v ssa.Value) bool {
 	return len(names) >= 1 && names[len(names)-1] == "shutdownCtx"
 }
 
+// derivedShutdownDone: ch is X.Done() for X, _ := context.WithCancel / WithTimeout /
+// WithDeadline(<shutdownCtx>, ...); returns that With* call.
+func (c *Ctx) derivedShutdownDone(ch ssa.Value) *ssa.Call {
+	dc, ok := an.Strip(ch).(*ssa.Call)
+	if !ok || !dc.Common().IsInvoke() || dc.Common().Method.Name() != "Done" {
+		return nil
+	}
+	ex, ok := an.StripX(dc.Common().Value).(*ssa.Extract)
+	if !ok || ex.Index != 0 {
+		return nil
+	}
+	wc, ok := ex.Tuple.(*ssa.Call)
+	if !ok {
+		return nil
+	}
+	f := wc.Common().StaticCallee()
+	if f == nil || an.FuncPkgPath(f) != "context" || !strings.HasPrefix(f.Name(), "With") || len(wc.Common().Args) == 0 || !c.isShutdownCtx(wc.Common().Args[0]) {
+		return nil
+	}
+	return wc
+}
+
 func (c *Ctx) isShutdownDone(ch ssa.Value) bool {
 	call, ok := an.Strip(ch).(*ssa.Call)
 	if !ok || !call.Common().IsInvoke() || call.Common().Method.Name() != "Done" {
@@ -1988,8 +2070,14 @@ func (c *Ctx) dominatedByShutdownRecv(in ssa.Instruction) bool {
 	fn := in.Parent()
 	ok := false
 	an.Instrs(fn, func(x ssa.Instruction) {
-		if u, isU := x.(*ssa.UnOp); isU && u.Op == token.ARROW && c.isShutdownDone(u.X) && an.InstrDominates(u, in) {
-			ok = true
+		if u, isU := x.(*ssa.UnOp); isU && u.Op == token.ARROW && an.InstrDominates(u, in) {
+			if c.isShutdownDone(u.X) {
+				ok = true
+			} else if c.derivedShutdownDone(u.X) != nil {
+				// a context derived from shutdownCtx: fires when the server stops (and when its own cancel is
+				// called, which rule C11-waker-lifetime holds to "only after conn.close")
+				ok = true
+			}
 		}
 	})
 	if ok {
